@@ -176,6 +176,19 @@ claim('C11',
       'histories against a reference dict',
       'DESIGN.md#c11')
 
+claim('C13',
+      'Every stand-alone stock case (93 files) is written to json and xlsx and read back: same models, device order, '
+      'as_dict(vin) value by value with type class, same power flow and initialisation. The generated 3-bus family (every '
+      'single branch feature / bus device set, pairs in thorough) x extra parameter kinds (string idx, list-valued ShuntSw, '
+      'dynamic devices with optional fields) goes through both formats. The same networks are written as MATPOWER text and '
+      'as PSS/E RAW v33 text by independent generators (ZIP load parts, offline loads, end shunts GI/BI/GJ/BJ, CW in {1,2}, '
+      'CZ in {1,2}, winding-2 tap, ratio-0 phase shifter) and the parsed element data are compared with the generator data by '
+      'the textbook conversion; system2mpc -> mpc2system must give an equivalent system with the same power flow.',
+      'The RAW / MATPOWER generators in the check are the independent reading; three-winding transformers and dyr files only '
+      'through stock cases; numeric-looking string indices excluded from the xlsx leg.',
+      'exhaustive enumeration of stock files and of a generated case family x formats against independent writers/readers',
+      'DESIGN.md#c13')
+
 _PENDING = 'check not built yet in this round; planned per DESIGN.md (bounded exhaustive exploration applies)'
 for _p in ALL:
     if _p not in CLAIMED:
